@@ -19,7 +19,7 @@ def run(ctx):
     d = ctx.scratch.sub("h")
     cpath, tpath = os.path.join(d, "cases.ndjson"), os.path.join(d, "trace.ndjson")
     vlib.write_ndjson(cpath, cases)
-    p = vlib.run_harness(ctx.harness, ["serial", "-cases", cpath, "-out", tpath, "-seed", str(ctx.seed), "-repo", vlib.REPO], timeout=2400)
+    p = vlib.run_harness(ctx.harness, ["serial", "-cases", cpath, "-out", tpath, "-seed", str(ctx.seed), "-repo", vlib.REPO], timeout=int(os.environ.get("VERIF_SERIAL_TIMEOUT", "900")))
     if p.returncode != 0:
         raise vlib.Infra("serial driver failed: " + p.stderr[-2000:])
     lines = vlib.read_ndjson(tpath)
